@@ -361,15 +361,16 @@ pub fn suite_clirefuse(dir: &str, seed: u64, _thorough: bool, st: &mut Stats) {
     let base = Scn::new("rfbase", 0);
     let src = gen_data(&mut rng, 4000).0;
     base.write("src.bin", &src);
-    let (code, _) = base.bita(&["compress", "-i", "src.bin", "--min-chunk-size", "64", "--avg-chunk-size", "256", "--max-chunk-size", "1024", "a.cba"], None, &[]);
+    let (code, _) = base.bita(&["compress", "-i", "src.bin", "--min-chunk-size", "64", "--avg-chunk-size", "256", "--max-chunk-size", "1024", "--hash-length", "8", "a.cba"], None, &[]);
     assert_eq!(code, 0);
     let archive = base.read("a.cba").unwrap();
+    // (a short chunk hash length: an expected header checksum must still be given in full, 64 bytes)
     let hc = hex(&archive[archive.len().min(14 + u64::from_le_bytes(archive[6..14].try_into().unwrap()) as usize + 8)..][..64]);
     let mut cases: Vec<(String, String, String, String)> = vec![]; // (cmd, outkind, flag, archivekind)
     for cmd in ["clone", "compress"] {
         for outkind in ["absent", "regular", "blockdev-small", "blockdev-big"] {
             for flag in ["none", "force", "seed-output", "verify", "verify-force"] {
-                for ak in ["valid", "invalid", "mismatch", "prefix-pin", "empty-pin", "match-pin"] {
+                for ak in ["valid", "invalid", "mismatch", "prefix-pin", "prefix-pin-63", "empty-pin", "match-pin"] {
                     if cmd == "compress" && (flag == "seed-output" || flag.starts_with("verify") || ak != "valid" || outkind.starts_with("blockdev")) { continue; }
                     if flag.starts_with("verify") && outkind == "blockdev-big" { continue; } // whole-device checksum: see DESIGN
                     cases.push((cmd.into(), outkind.into(), flag.into(), ak.into()));
@@ -404,6 +405,7 @@ pub fn suite_clirefuse(dir: &str, seed: u64, _thorough: bool, st: &mut Stats) {
             match ak.as_str() {
                 "mismatch" => { args.push("--verify-header".into()); let mut w = hc.clone(); w.replace_range(0..2, if &hc[0..2] == "00" { "01" } else { "00" }); args.push(w); }
                 "prefix-pin" => { args.push("--verify-header".into()); args.push(hc[..16].to_string()); }
+                "prefix-pin-63" => { args.push("--verify-header".into()); args.push(hc[..126].to_string()); }
                 "empty-pin" => { args.push("--verify-header".into()); args.push("".into()); }
                 "match-pin" => { args.push("--verify-header".into()); args.push(hc.clone()); }
                 _ => {}
@@ -427,7 +429,7 @@ pub fn suite_clirefuse(dir: &str, seed: u64, _thorough: bool, st: &mut Stats) {
         // expectation (C14): which cells are refusals
         let exists = outkind != "absent";
         let refuse_exists = exists && (flag == "none" || flag == "verify");
-        let refuse_archive = cmd == "clone" && (ak == "invalid" || ak == "mismatch" || ak == "prefix-pin" || ak == "empty-pin");
+        let refuse_archive = cmd == "clone" && (ak == "invalid" || ak == "mismatch" || ak.starts_with("prefix-pin") || ak == "empty-pin");
         let refuse_small = cmd == "clone" && outkind == "blockdev-small" && flag != "none" && flag != "verify" && !refuse_archive;
         let refused = refuse_exists || refuse_archive || refuse_small;
         let state = match (&now, exists) {
